@@ -1427,7 +1427,7 @@ fn parse_vars(exprs: &[&Vec<SExpr>], _lsp_hints: &mut LspHints) -> Result<HashMa
                             // concat resolves the variables it uses right away.
                             check_vars_are_not_cyclic(&vars)?;
                         }
-                        parse_list_var(l, &vars)
+                        parse_list_var(l, &vars)?
                     }
                 },
                 None => bail_expr!(var_name_expr, "variable name must have a subsequent value"),
@@ -1449,8 +1449,22 @@ fn parse_vars(exprs: &[&Vec<SExpr>], _lsp_hints: &mut LspHints) -> Result<HashMa
 /// Variables are resolved when they are used, and a variable may refer to other variables.
 /// A variable that refers to itself, directly or through other variables, can never be resolved.
 /// Resolving also recurses once per variable in a chain of references, so chains are bounded.
+/// The size of a variable's value once all references in it are resolved is bounded as well: every
+/// use copies or walks the resolved value, and a chain of variables that each use the previous one
+/// twice doubles it at every link.
+const MAX_VAR_SIZE: u64 = 1_000_000;
+
 fn check_vars_are_not_cyclic(vars: &HashMap<String, SExpr>) -> Result<()> {
     const MAX_VAR_NESTING: usize = 128;
+    /// Number of items plus characters of `expr` as written.
+    fn written_size(expr: &SExpr) -> u64 {
+        match expr {
+            SExpr::Atom(a) => 1 + a.t.len() as u64,
+            SExpr::List(l) => (l.t.iter())
+                .map(written_size)
+                .fold(1u64, |acc, n| acc.saturating_add(n)),
+        }
+    }
     /// Collects the variables that `expr` refers to, each with the number of lists around the
     /// reference, and returns the list nesting of `expr` itself.
     fn collect_var_refs<'a>(
@@ -1479,8 +1493,9 @@ fn check_vars_are_not_cyclic(vars: &HashMap<String, SExpr>) -> Result<()> {
         InProgress,
         /// Length of the longest chain of references that starts at the variable, and the list
         /// nesting of its value once all references are resolved. Code that resolves variables
-        /// recurses once per link of a chain and once per level of nesting.
-        Done(usize, usize),
+        /// recurses once per link of a chain and once per level of nesting. Last, the size of the
+        /// resolved value.
+        Done(usize, usize, u64),
     }
     let var_refs: HashMap<&str, (&SExpr, usize, Vec<(&str, usize)>)> = vars
         .iter()
@@ -1526,12 +1541,20 @@ fn check_vars_are_not_cyclic(vars: &HashMap<String, SExpr>) -> Result<()> {
                     };
                     let mut longest_ref_chain = 0;
                     let mut resolved_nesting = own_nesting;
+                    let mut resolved_size = written_size(expr);
                     for (referenced, lists_around) in refs {
-                        if let Some(Visit::Done(chain, nesting)) = visits.get(referenced) {
+                        if let Some(Visit::Done(chain, nesting, size)) = visits.get(referenced) {
                             longest_ref_chain = longest_ref_chain.max(*chain);
                             resolved_nesting =
                                 resolved_nesting.max(lists_around.saturating_add(*nesting));
+                            resolved_size = resolved_size.saturating_add(*size);
                         }
+                    }
+                    if resolved_size > MAX_VAR_SIZE {
+                        bail_expr!(
+                            expr,
+                            "The variable {name} expands to more than {MAX_VAR_SIZE} items and characters"
+                        );
                     }
                     if longest_ref_chain >= MAX_VAR_NESTING {
                         bail_expr!(
@@ -1545,7 +1568,10 @@ fn check_vars_are_not_cyclic(vars: &HashMap<String, SExpr>) -> Result<()> {
                             "The variable {name} expands to lists nested more than {MAX_VAR_NESTING} levels deep"
                         );
                     }
-                    visits.insert(name, Visit::Done(longest_ref_chain + 1, resolved_nesting));
+                    visits.insert(
+                        name,
+                        Visit::Done(longest_ref_chain + 1, resolved_nesting, resolved_size),
+                    );
                     stack.pop();
                 }
             }
@@ -1554,13 +1580,13 @@ fn check_vars_are_not_cyclic(vars: &HashMap<String, SExpr>) -> Result<()> {
     Ok(())
 }
 
-fn parse_list_var(expr: &Spanned<Vec<SExpr>>, vars: &HashMap<String, SExpr>) -> SExpr {
+fn parse_list_var(expr: &Spanned<Vec<SExpr>>, vars: &HashMap<String, SExpr>) -> Result<SExpr> {
     let ret = match expr.t.first() {
         Some(SExpr::Atom(a)) => match a.t.as_str() {
             "concat" => {
                 let mut concat_str = String::new();
                 let visitees = &expr.t[1..];
-                push_all_atoms(visitees, vars, &mut concat_str);
+                push_all_atoms(visitees, vars, &mut concat_str)?;
                 SExpr::Atom(Spanned {
                     span: expr.span.clone(),
                     t: concat_str,
@@ -1570,17 +1596,28 @@ fn parse_list_var(expr: &Spanned<Vec<SExpr>>, vars: &HashMap<String, SExpr>) -> 
         },
         _ => SExpr::List(expr.clone()),
     };
-    ret
+    Ok(ret)
 }
 
-fn push_all_atoms(exprs: &[SExpr], vars: &HashMap<String, SExpr>, pusheen: &mut String) {
+fn push_all_atoms(
+    exprs: &[SExpr],
+    vars: &HashMap<String, SExpr>,
+    pusheen: &mut String,
+) -> Result<()> {
     for expr in exprs {
         if let Some(a) = expr.atom(Some(vars)) {
             pusheen.push_str(a.trim_atom_quotes());
         } else if let Some(l) = expr.list(Some(vars)) {
-            push_all_atoms(l, vars, pusheen);
+            push_all_atoms(l, vars, pusheen)?;
+        }
+        if pusheen.len() as u64 > MAX_VAR_SIZE {
+            bail_expr!(
+                expr,
+                "The result of concat has more than {MAX_VAR_SIZE} characters"
+            );
         }
     }
+    Ok(())
 }
 
 /// Parse alias->action mappings from multiple exprs starting with defalias.
